@@ -6,6 +6,7 @@ CONSTANTS
   Fams <- FamsAll
   DTypes <- DT2
   DataSets <- DS3
+  TempPairs <- TP7
   Fixes <- NoFixes
 INIT Init
 NEXT Next
